@@ -278,6 +278,11 @@ func GenerateFuzzyHash(t *FunctionTopology) string {
 }
 
 func normalizeTypeName(t types.Type) string {
+	// The text of a func type spells out the NAMES of its parameters and results
+	// (func(x int) int): render its shape instead, so that renaming them changes nothing.
+	if sig, ok := types.Unalias(t).(*types.Signature); ok {
+		return signatureShape(sig)
+	}
 	s := t.String()
 	// Fix: Use regex to remove package paths (e.g., "github.com/pkg/")
 	// instead of finding the last slash, which incorrectly strips type
